@@ -335,8 +335,12 @@ def check_flow_conservation(G: nx.DiGraph, flow_attr) -> bool:
                 return False
             in_flow += data[flow_attr]
 
-        # Float values that conserve flow as decimal numbers (0.3 = 0.1 + 0.2) differ in the last binary digits
-        if not math.isclose(out_flow, in_flow, rel_tol=1e-9, abs_tol=1e-9):
+        # Float values that conserve flow as decimal numbers (0.3 = 0.1 + 0.2) differ in the last binary digits: they are
+        # compared with a tolerance. Integral sums are compared exactly (a relative tolerance would accept 2000000001 = 2000000000)
+        if float(out_flow).is_integer() and float(in_flow).is_integer():
+            if out_flow != in_flow:
+                return False
+        elif not math.isclose(out_flow, in_flow, rel_tol=1e-9, abs_tol=1e-9):
             return False
 
     return True
